@@ -125,6 +125,11 @@ Theorem C08_liveness_is_least : forall kill fuel ops L, liveness kill fuel ops =
 Proof. exact liveness_sound. Qed.
 Print Assumptions C08_liveness_is_least.
 
+Theorem C08_liveness_exact : forall kill fuel ops L, liveness kill fuel ops = Some L ->
+  forall i r, PS.In (rkey r) (lget L i) <-> live_gen kill ops i r.
+Proof. exact liveness_exact. Qed.
+Print Assumptions C08_liveness_exact.
+
 (* Non-vacuity: a loop with two simultaneously live registers; a correct 2-register assignment
    is accepted, merging the two live registers is rejected. *)
 Definition ex_ops : list op :=
